@@ -29,6 +29,12 @@
 
 
 #define MRB_BUFFER_SIZE (64 * 1024 * 1024)
+#ifdef JLS_VERIF
+// verification hook: runtime-settable queue size, off by default
+uint32_t jls_verif_mrb_buffer_size = MRB_BUFFER_SIZE;
+#undef MRB_BUFFER_SIZE
+#define MRB_BUFFER_SIZE (jls_verif_mrb_buffer_size)
+#endif
 
 
 struct jls_twr_s {
